@@ -24,4 +24,39 @@ SPEC = {
          'src': 'harness/pkg/reader/c18_test.go', 'test': 'TestVerif_C18_conv',
          'sinks': {'C18_conv': 'conv_judge'}, 'n': {'quick': 250, 'thorough': 10000}},
     ],
+    'rule': 'hseq/rseq: event histories (start, poll, read, close) of classes mixed (success with changed config / failure / '
+            'empty config / undecodable and duplicate entries), health (9..12 failures around MaxFailedPolls, optionally split '
+            'by one success, failing or succeeding initial fetch), paging (99/100/101/199/200/201 entries in pages of 100, failing '
+            'second page, over-long page, script after the short page), lifecycle (reads before Start, Close before Start, double '
+            'Start/Close, Close while a paged fetch is in flight, events after Close); every getter + Ready + HealthReport '
+            'compared at every read. hconc/rconc: 20-60 distinct configurations polled back to back, 16 reader goroutines, '
+            'each record = 4 getter results + one RLock-ed copy of the state struct. bitmap: all (n<=8, bitmap<=2^n, j<n) + '
+            'random n<=256 + invalid (nil, negative, too large, n in {0,-1,257,300}, j out of range). conv: active/candidate '
+            'pairs incl. empty/equal digests, nil and out-of-range bitmaps, 255/256/257 nodes. '
+            'non-trivial = history with >=2 polls / run that saw >2 snapshots / every valid bitmap case / non-empty active '
+            'config with nodes and chains; distinct by full input+output',
+    'trusted': ['the contract reader is an oracle (scripted); it is assumed to fail once its context is cancelled',
+                'chainconfig.DecodeChainConfig is an oracle (the harness calls the same function to label entries)',
+                'services.StateMachine (chainlink-common): Ready/Healthy = started and no buffered error; StopOnce/StartOnce once-only',
+                'math/big And/Cmp/Lsh on the bitmap (two\'s-complement And for negative values)',
+                'Go race detector and sync.RWMutex for the concurrent parts'],
+    'assumptions': ['one poll goroutine per poller (Start is once-only); polls are sequential',
+                    'fewer than 2^64 events for the wrap-free form of the health theorems (the exact form has the wrap)'],
+    'level_text': 'PARTIAL. Proof: 21 Coq theorems over the executable model of both pollers, for every event history '
+                  '(induction, no bound): every read sees views derived from ONE configuration (the most recent successful '
+                  'fetch or the initial state); failed/partial polls and reads change nothing; paging = concatenation up to '
+                  'the first short page; health bad exactly when not polling or after 10 consecutive failed ticker polls '
+                  '(pre-repair home-chain counter refuted, F21a); both-digests-empty is a failed poll; IsNodeObserver = '
+                  'bit j of the bitmap for all n<=256 and refuses everything else; node id = position, observer sets = '
+                  'bitmap bit for bit; Close ends polling for good. '
+                  'Not proved (tested): freedom from data races and atomicity of the state replacement under the Go memory '
+                  'model - exercised every run with 16 reader goroutines during refresh under the race detector, each observed '
+                  'view / struct copy checked in Coq to be whole, from one polled configuration, and never older than the previous one.',
+    'level_note': 'Trusted: Coq kernel, hand-written model, differential harness (gated scripted contract reader, 300us ticker), '
+                  'race detector. A nil observer bitmap panics (F21b, modelled as Panic; it would kill the poll goroutine). '
+                  'HealthReport called concurrently races inside chainlink-common ErrorBuffer.Flush (write under RLock); '
+                  'the concurrent part therefore does not call HealthReport. No axioms.',
+    'modelled': 'homeChainPoller (poll loop, fetchAndSetConfigs paging, convert, setState + create* views, getters, HealthReport, '
+                'Close), rmnHomePoller (same + both-digests-empty), convertOnChainConfigToRMNHomeChainConfig, IsNodeObserver; '
+                'ticker timing, goroutine scheduling and lock semantics are not modelled',
 }
